@@ -505,7 +505,22 @@ Proof.
   - destruct (pi_sl _ I) as [[_ Hs] _ _]. rewrite <- Hs. apply all_finished_no_tokens. exact F.
 Qed.
 
+(* a run that cannot be extended has finished everything: with termination (product_step_decreases) this is "Run returns,
+   and exactly when all work is done" for the product *)
+Theorem product_maximal_run_completes l s :
+  prun p (pinit p) l = Some s -> (forall a, pstep p s a = None) ->
+  (forall v, v < NetA.nn c -> NetA.rn (NetA.ns (net s) v) = NetA.RFin) /\
+  (forall k t, nth_error (Slots.tasks (sl s)) k = Some t -> Slots.st t = Slots.Finished) /\ Slots.tokens (sl s) = 0.
+Proof.
+  intros R Hmax.
+  assert (A : forall v, v < NetA.nn c -> NetA.rn (NetA.ns (net s) v) = NetA.RFin).
+  { intros v Hv. destruct (NetA.rn (NetA.ns (net s) v)) eqn:E; auto; exfalso;
+      (destruct (product_not_stuck l s R) as [a Ha]; [exists v; split; [exact Hv|rewrite E; discriminate]|apply Ha, Hmax]). }
+  split; [exact A|]. apply (product_all_done l s R A).
+Qed.
+
 End Product.
+
 
 (* non-vacuity: the diamond of Top.v with a two-slot workflow in which the last process asks for both slots; the
    hypotheses of the section hold, and a prefix of a run (the source creates a task, the task goes through the slot
